@@ -23,6 +23,26 @@ THEOREMS = [
     "Cv.Session.copies_share_hashing",
     "Cv.Session.all_share_root",
     "Cv.Session.inverted_copy_cached",
+    "Cv.C14i.session_answers_fresh",
+    "Cv.C14i.session_answers_fresh_root",
+    "Cv.C14i.session_caches_fresh",
+    "Cv.C14i.session_ball_reuse",
+    "Cv.C14i.unkeyed_cache_not_fresh",
+    "Cv.C14i.unkeyed_cache_answer",
+    "Cv.C14i.session_findPath_eq",
+    "Cv.C14i.session_bfs_eq",
+    "Cv.C14i.session_findPathTo_eq",
+    "Cv.C14i.session_mitmTo_eq",
+    "Cv.C14i.session_between_eq",
+    "Cv.C14i.session_beam_eq",
+    "Cv.C14i.session_applyPath_eq",
+    "Cv.C14i.session_switchToInverted_eq",
+    "Cv.C14i.session_modifiedCopy_eq",
+    "Cv.C14i.session_definition_stable",
+    "Cv.C14i.session_definition_stable_step",
+    "Cv.C14i.session_definition_stable_root",
+    "Cv.C14i.session_findPath_valid",
+    "Cv.C14i.session_findPath_shortest",
 ]
 
 
@@ -70,6 +90,19 @@ def fingerprint(g):
 
 def gen_ops(rng, gd, orbit, ecc, inv_ok, ic):
     ops = []
+    # limits a session comes back to (a cache is only interesting when the same key is asked for again)
+    favourite = {} if rng.random() < 0.4 else {"max_diameter": rng.choice([1, 2, ecc, ecc + 2])}
+    if inv_ok and rng.random() < 0.35:
+        # cache stress: the same limits asked for twice with other work on the same object in between
+        kw = dict(favourite)
+        mid = rng.choice([
+            ["bfs", {"max_diameter": rng.choice([2, ecc, 10**6]), "return_all_hashes": False, "return_all_edges": False, "max_layer_size_to_store": 1000, "disable_batching": False}, None],
+            ["walks", "bfs", 3, 5, 1],
+            ["beam", list(rng.choice(orbit)), 3, 2 * ecc + 2, "simple"],
+            ["mitm_to", list(rng.choice(orbit)), max(1, ecc // 2)],
+            ["find_path", list(rng.choice(orbit)), {"max_diameter": rng.choice([1, ecc + 3])}],
+        ])
+        ops += [["find_path", list(rng.choice(orbit)), kw], mid, ["find_path", list(rng.choice(orbit)), kw]]
     for _ in range(rng.randint(4, 10)):
         k = rng.random()
         s = list(rng.choice(orbit))
@@ -84,9 +117,9 @@ def gen_ops(rng, gd, orbit, ecc, inv_ok, ic):
         elif k < 0.46 and inv_ok:
             ops.append(["between", [s], [list(rng.choice(orbit))], rng.choice([1, 2, ecc])])
         elif k < 0.56 and inv_ok:
-            kw = {}
-            if rng.random() < 0.6:
-                kw["max_diameter"] = rng.choice([1, 2, ecc, ecc + 2])
+            kw = dict(favourite)
+            if rng.random() < 0.4:
+                kw = {"max_diameter": rng.choice([1, 2, ecc, ecc + 2])} if rng.random() < 0.7 else {}
             ops.append(["find_path", s, kw])
         elif k < 0.64:
             ops.append(["beam", s, rng.choice([1, 3, 10**6]), rng.choice([2, 3 * ecc + 2]), rng.choice(["simple", "advanced"])])
@@ -95,7 +128,7 @@ def gen_ops(rng, gd, orbit, ecc, inv_ok, ic):
         elif k < 0.8 and inv_ok:
             ops.append(["switch_to_inverted"])
         elif k < 0.86:
-            ops.append(["modified_copy", list(rng.choice(orbit))])
+            ops.append(["modified_copy", list(rng.choice(orbit)), rng.choice(["central", "central", "inverse_closed", "inverted"])])
         elif k < 0.92:
             ops.append(["neighbors", s])
         elif k < 0.95:
@@ -179,7 +212,16 @@ def run_case(ck: Check, case: dict):
             cur = nxt
             continue
         if op[0] == "modified_copy":
-            new_def = cur.definition.with_central_state(op[1])
+            how = op[2] if len(op) > 2 else "central"
+            fp_cur = fingerprint(cur)
+            try:
+                new_def = cur.definition.with_central_state(op[1]) if how == "central" else cur.definition.make_inverse_closed() if how == "inverse_closed" else cur.definition.with_inverted_generators()
+            except (AssertionError, np.linalg.LinAlgError):
+                ck.count("modified_copy: derived definition not constructible (no integer inverse)")
+                continue
+            if fingerprint(cur) != fp_cur or fingerprint(origin) != fp_origin:
+                ck.violation("C14/mutation/derive-definition", f"deriving a definition ({how}) changed the definition of the graph it was derived from", rep)
+                return
             st, nxt = algos.call(lambda: cur.modified_copy(new_def))  # pylint: disable=cell-var-from-loop
             if st != "ok":
                 ck.violation("C14/modified-copy-error", "modified_copy raised: " + nxt, rep)
@@ -286,6 +328,8 @@ def gen_case(ck):
         cfg = graphs.gen_cfg(rng, gd)
         if rng.random() < 0.8 and cfg.get("random_seed") is None:
             cfg["random_seed"] = rng.choice([0, 1, 7])
+        if rng.random() < 0.2:
+            cfg["memory_limit_gb"] = 1e-9  # documented as safe; the library then frees memory inside every BFS step
         ic = None
         return {"gd": gd.to_json(), "cfg": cfg, "ops": gen_ops(rng, gd, orbit, len(layers) - 1, inv_ok, ic)}
     raise RuntimeError("no case")
@@ -297,7 +341,7 @@ def main():
         body = json.load(open(os.path.join(VERIF, ck.replay) if not os.path.isabs(ck.replay) else ck.replay))
         ck.guard(run_case, ck, body["case"])
         ck.finish(rule="replay of one recorded operation sequence")
-    ck.lean_obligations("CvProps.C14", THEOREMS)
+    ck.lean_obligations(["CvProps.C14", "CvProps.C14i"], THEOREMS)
     for case in json.load(open(os.path.join(VERIF, "harness", "corpus", "C14.json"))):
         ck.guard(run_case, ck, case)
         ck.count("corpus")
